@@ -95,6 +95,55 @@ def scaled_values_loop_back_to_the_nearest_step(rv, v):
     assert (lo <= got <= hi) or (hi <= got <= lo)
 
 
+from xknx.dpt import DPT2ByteFloat, DPTTemperature, DPTValue1Count  # noqa: E402
+from xknx.remote_value.remote_value_setpoint_shift import RemoteValueSetpointShift  # noqa: E402
+
+TEMP_PAYLOAD = DPTArray((0x0C, 0x1A))
+
+
+def _temp_to_knx(cls, value):
+    """Contract of DPTTemperature.to_knx (C09: encodes the value it is given to the nearest 0.01 K step):
+    records what it is handed."""
+    ghost("temp_to_knx").append((cls, value))
+    return TEMP_PAYLOAD
+
+
+def _temp_from_knx(cls, payload):
+    """Contract of DPTTemperature.from_knx (C09: decodes exactly): hands back what the lemma chose."""
+    ghost("temp_from_knx").append((cls, payload))
+    return ghost("temp_decoded")[0]
+
+
+TEMP_STUBS = [(DPT2ByteFloat, "to_knx", classmethod(_temp_to_knx)), (DPT2ByteFloat, "from_knx", classmethod(_temp_from_knx))]
+
+
+@lemma("C39", params=dict(rv=Obj(RemoteValueSetpointShift, _internal_dpt_class=Const(DPTTemperature), setpoint_shift_step=Float(lo=0.01, hi=5.0), **rv_fields()), v=Float(lo=-700.0, hi=700.0), t=Float(lo=-700.0, hi=700.0)), stubs=TEMP_STUBS, float_mode="real")
+def setpoint_shift_as_temperature_difference_is_passed_through(rv, v, t):
+    """DPT 9.002 mode: the requested offset reaches the two-octet float codec unchanged (whatever the
+    configured step is - the step only scales the count of DPT 6.010), and a received payload is reported as
+    the codec decodes it; together with C09 (the codec returns the nearest 0.01 K step) the device reports the
+    request to the codec's resolution."""
+    ghost("temp_decoded").append(t)
+    p = rv.to_knx(v)
+    assert p is TEMP_PAYLOAD and ghost("temp_to_knx") == [(DPTTemperature, v)]
+    got = rv.from_knx(p)
+    assert ghost("temp_from_knx") == [(DPTTemperature, TEMP_PAYLOAD)]
+    assert got == t
+
+
+@lemma("C39", family=[dict(step=s_) for s_ in (0.05, 0.1, 0.125, 0.2, 0.25, 0.5, 1.0)], dynamic_params=lambda fixed: dict(rv=Obj(RemoteValueSetpointShift, _internal_dpt_class=Const(DPTValue1Count), setpoint_shift_step=Const(fixed["step"]), **rv_fields()), v=Float(lo=-200.0, hi=200.0)), float_mode="real")
+def setpoint_shift_as_count_loops_back_to_the_nearest_step(step, rv, v):
+    """DPT 6.010 mode: an accepted offset is reported as a whole number of steps within half a step of the
+    request; offsets beyond -128..127 steps are refused, not wrapped."""
+    try:
+        got = loop_back(rv, v)
+    except ConversionError:
+        assert v <= -127.5 * step or v >= 126.5 * step
+        return
+    assert abs(got - v) * 2 <= step
+    assert -128 * step <= got <= 127 * step
+
+
 # ------------------------------------------------------------------ stand-in: whole devices on a real XKNX object
 
 
@@ -134,6 +183,9 @@ def _device_cases(tier, **fixed):
                 continue
             yield ("climate_shift", step, round(k * step, 2))
             yield ("climate_target_via_shift", step, round(21 + k * step, 2))
+    for step in (0.1, 0.5, 1.0):
+        for k in range(-2000, 2001, 1 if dense else 7):  # DPT 9.002 resolves 0.01 K whatever the step is
+            yield ("climate_shift_9002", step, k / 100)
     for t in itertools.chain(range(-2000, 6000, 7 if dense else 131), (2137, 2138, -27300, 67076000 // 100)):
         yield ("numeric_temperature", False, t / 100)
     for v in range(0, 101, 5):
@@ -157,7 +209,7 @@ def _device_cases(tier, **fixed):
         yield ("climate_fan_step", False, s_)
 
 
-@standin("C39", cases=_device_cases, kind="enum-native", exhaustive=False, bound="real devices on a real XKNX object (no interface): Switch and Cover (position, angle) plain and inverted, Light brightness / RGB / tunable white / colour temperature / xyY colour, Fan percent, 3-step mode and oscillation, Climate fan speed and swing, Climate setpoint shift and target temperature through a setpoint shift (steps 0.05/0.1/0.125/0.2/0.25/0.5/1.0, every shift of -127..127 steps within +-20 K), NumericValue temperature / percent, RawValue; every 1st (thorough) or 3rd-5th (quick) value of each integer range; the setter's telegrams are processed as outgoing and the reported state compared with the request (equal, or within half a step of the datapoint)")
+@standin("C39", cases=_device_cases, kind="enum-native", exhaustive=False, bound="real devices on a real XKNX object (no interface): Switch and Cover (position, angle) plain and inverted, Light brightness / RGB / tunable white / colour temperature / xyY colour, Fan percent, 3-step mode and oscillation, Climate fan speed and swing, Climate setpoint shift and target temperature through a setpoint shift (steps 0.05/0.1/0.125/0.2/0.25/0.5/1.0, every shift of -127..127 steps within +-20 K; as DPT 9.002 every 0.01 K (thorough) or 0.07 K (quick) within +-20 K at steps 0.1/0.5/1.0), NumericValue temperature / percent, RawValue; every 1st (thorough) or 3rd-5th (quick) value of each integer range; the setter's telegrams are processed as outgoing and the reported state compared with the request (equal, or within half a step of the datapoint)")
 def device_reports_what_was_requested(kind, opt, v):
     from xknx import XKNX
     from xknx.devices import Climate, Cover, Fan, Light, NumericValue, RawValue, Switch
@@ -255,6 +307,12 @@ def device_reports_what_was_requested(kind, opt, v):
             await d.set_fan_speed(v)
             assert _drain(xknx) >= 1
             assert d.current_fan_speed == v, (kind, v, d.current_fan_speed)
+        elif kind == "climate_shift_9002":
+            d = Climate(xknx, "k", group_address_setpoint_shift="1/2/2", setpoint_shift_mode=SetpointShiftMode.DPT9002, temperature_step=opt, setpoint_shift_min=-20, setpoint_shift_max=20)
+            xknx.devices.async_add(d)
+            await d.set_setpoint_shift(v)
+            assert _drain(xknx) >= 1
+            assert abs(d.setpoint_shift - v) <= 0.005 + 1e-9, (kind, opt, v, d.setpoint_shift)
         elif kind in ("climate_shift", "climate_target_via_shift"):
             step = opt
             d = Climate(xknx, "k", group_address_target_temperature_state="1/2/1", group_address_setpoint_shift="1/2/2", setpoint_shift_mode=SetpointShiftMode.DPT6010, temperature_step=step, setpoint_shift_min=-20, setpoint_shift_max=20)
